@@ -453,8 +453,12 @@ class Interp:
             return self.ctx.named("unit")
         last = c.rsplit("::", 1)[-1]
         if re.fullmatch(r"[\w:]+", c) and last in CONST_ITEMS:
+            cache = self.ctx.__dict__.setdefault("const_cache", {})
+            if last in cache:        # a const item has ONE value: evaluate its body once per context
+                return cache[last]
             v = self.eval_const_item(last)
             if v is not None:
+                cache[last] = v
                 return v
         return self.ctx.named(c)
 
